@@ -18,3 +18,11 @@ Proof. vm_compute. reflexivity. Qed.
 
 Lemma multiindex_from_transform_call : In ("MultiIndexConverter"%string, UTransformReference) unseen_behaviour.
 Proof. vm_compute. tauto. Qed.
+
+(* every method that maps scores back through a preprocessor: the methods that answer for NEW data (transform, predict)
+   take the unseen path, every accessor of the fitted scores takes the fit path *)
+Definition new_data_method (m : String.string) : bool := (String.eqb m "transform" || String.eqb m "predict")%bool.
+Definition path_ok (r : String.string * String.string * score_path) : bool :=
+  let '(_, m, p) := r in Bool.eqb (new_data_method m) (is_unseen p).
+Lemma score_paths_ok : forallb path_ok score_paths = true /\ (13 <= List.length score_paths)%nat.
+Proof. split; [vm_compute; reflexivity|vm_compute; repeat constructor]. Qed.
